@@ -2,5 +2,8 @@ SPECIFICATION TSpec
 CONSTANTS
   Kinds <- TKinds
   MaxSent = 1000000
+  MaxConn = 1000000
+  MiuClasses <- TNoClasses
+  RwVals <- TNoClasses
 CONSTRAINT Done
 CHECK_DEADLOCK FALSE
